@@ -306,6 +306,7 @@ class Run:
         elif rc != 0:
             self.broken.append({"kind": "correspondence", "name": "harness exit %d" % rc, "detail": out[-1500:]})
         cases, stats, notes = [], {}, []
+        begun = None
         if os.path.exists(out_path):
             req = None
             for l in open(out_path, errors="replace"):
@@ -318,8 +319,15 @@ class Run:
                 elif l.startswith("STAT "):
                     _, k, v = l.split(" ", 2)
                     stats[k] = stats.get(k, 0) + int(v)
+                elif l.startswith("NOTE BEGIN "):
+                    begun = l[11:]
                 elif l.startswith("NOTE "):
                     notes.append(l[5:])
+        if rc not in (0, 66, 124, -9) and begun is not None and ("panic:" in out or "fatal error:" in out):
+            # the process died inside a unit of work (a panic in a library goroutine): that unit is the failing input
+            why = [x for x in out.splitlines() if x.startswith("panic:") or x.startswith("fatal error:")]
+            self.violations.append({"req": "crash " + begun, "observed": "process crashed: " + (why[0] if why else "exit %d" % rc),
+                                    "model": "no crash (never-panics theorems)", "rule": "violated:process_crashed", "source": "harness tier=%s seed=%s" % (tier, seed)})
         return cases, stats, notes
 
     def drive(self, cases):
@@ -516,7 +524,10 @@ class Run:
             "wall_s": round(time.time() - self.t0, 2),
             "violations": len(self.violations) + (1 if (self.broken and not self.violations) else 0),
         }
-        with open(os.path.join(VERIF, "evidence", self.pid + ".json"), "w") as f:
+        # evidence/ holds runs against /repo itself only; a run against a scratch tree (VERIF_REPO) writes beside the build output
+        evdir = os.path.join(VERIF, "evidence") if REPO == "/repo" else os.path.join(BUILD, "evidence_scratch")
+        os.makedirs(evdir, exist_ok=True)
+        with open(os.path.join(evdir, self.pid + ".json"), "w") as f:
             json.dump(ev, f, indent=1)
             f.write("\n")
 
